@@ -32,7 +32,8 @@ var segmentPool = sync.Pool{
 }
 
 type memorySegmentFile struct {
-	file *bytes.Buffer
+	file *bytes.Buffer // pooled buffer, only while the segment is being written
+	data []byte        // the finished segment; never written again, readers may keep it
 	w    mpegts.FrameWriter
 }
 
@@ -53,11 +54,21 @@ func (mf *memorySegmentFile) writeFrame(frame *mpegts.Frame) (err error) {
 
 func (mf *memorySegmentFile) close() (err error) {
 	mf.w = nil
+	if mf.file != nil {
+		// Readers handed out by get() are read after the playlist lock is
+		// released and may outlive the segment's place in the window. They must
+		// not look into the pooled buffer, which the next segment overwrites:
+		// the finished segment gets bytes of its own and the buffer goes back now.
+		mf.data = make([]byte, mf.file.Len())
+		copy(mf.data, mf.file.Bytes())
+		segmentPool.Put(mf.file)
+		mf.file = nil
+	}
 	return
 }
 
 func (mf *memorySegmentFile) get() (io.Reader, int, error) {
-	data := mf.file.Bytes()
+	data := mf.data
 	return bytes.NewReader(data), len(data), nil
 }
 
@@ -66,6 +77,7 @@ func (mf *memorySegmentFile) delete() error {
 		segmentPool.Put(mf.file)
 		mf.file = nil
 	}
+	mf.data = nil
 	return nil
 }
 
